@@ -2,6 +2,7 @@ package c27run
 
 import (
 	"fmt"
+	"os"
 
 	"verifharness/internal/gen"
 )
@@ -306,12 +307,69 @@ func scDownloadStale(r *gen.Rand, name string, k int) Case {
 	return b.done()
 }
 
+// scDelNodeDesc: an invalid block X arrives through the download path on a SIDE branch (pre-stored,
+// not executed), a descendant Y makes the branch the heavier one: the reorganisation executes X, fails,
+// and handleErrBlk deletes X's index node (`delnode.parent = nil`) while Y keeps pointing at it.  A
+// further descendant Z then walks Z -> Y -> X -> nil: findFork finds no fork point.
+//   heavy: Z claims more work than the tip -> getReorganizeNodes(Z, nil) detaches down to genesis;
+//   light: the side-chain debug line dereferences the nil fork.
+func scDelNodeDesc(r *gen.Rand, name string, heavy bool, restart bool) Case {
+	b := newCase(name, r.Bool(), 600, 200)
+	tag := 1
+	ws := b.trunk(r, 0, margin+r.Intn(2), &tag)
+	if restart {
+		b.op("restart")
+	}
+	fork := ws[len(ws)-1]
+	m1 := b.validBlk(fork, 1, &tag, opt())
+	m2 := b.validBlk(m1, 1, &tag, opt())
+	b.deliver(m1, "p", bc(r))
+	b.deliver(m2, "p", bc(r))
+	ox := opt()
+	ox.salt = 1
+	ox.state0 = true
+	x := b.validBlk(fork, 1, &tag, ox) // wrong state root
+	oh := opt()
+	oh.work = 9000
+	y := b.validBlk(x, 1, &tag, oh)
+	oz := opt()
+	if heavy {
+		oz.work = 90000
+	}
+	z := b.validBlk(y, 1, &tag, oz)
+	b.deliver(x, "d", bc(r))
+	b.op("chain")
+	b.deliver(y, "p", bc(r))
+	b.op("chain")
+	om := opt()
+	if !heavy {
+		om.work = 900000 // the honest branch outweighs Z: Z goes down the side-chain path
+	}
+	m3 := b.validBlk(m2, 1, &tag, om)
+	if !heavy {
+		b.deliver(m3, "p", bc(r))
+		b.op("chain")
+	}
+	b.deliver(z, "p", bc(r))
+	b.op("chain")
+	if heavy {
+		b.deliver(m3, "p", bc(r))
+	}
+	b.op("chain")
+	b.observe()
+	return b.done()
+}
+
 var sameHdrKinds = []int{mReorder, mAlter, mAlterSig, mResign, mDuplicate, mBlockSig}
 
 // GenC27 is the case generator of h_c27.
 func GenC27(seed uint64) []Case {
 	r := gen.New(seed*0x9e37 + 27)
 	var cs []Case
+	if os.Getenv("VERIF_C27_PROBE") != "" {
+		return []Case{scDelNodeDesc(r, "delnode-heavy", true, false), scDelNodeDesc(r, "delnode-light", false, false),
+			scDelNodeDesc(r, "delnode-heavy-restart", true, true), scDelNodeDesc(r, "delnode-light-restart", false, true)}
+	}
 	modeName := []string{"", "-somepooled", "-allpooled"}
 	// every mutation kind as a tip extension with none / ALL of the block's transactions in the
 	// receiving node's mempool (and with some of them, for the kinds that touch the body)
@@ -340,6 +398,9 @@ func GenC27(seed uint64) []Case {
 	for i := 0; i < gen.Scale(2, 40); i++ {
 		cs = append(cs, scSide(r, fmt.Sprintf("side-dl%d", i), sameHdrKinds[r.Intn(len(sameHdrKinds))], true, r.Intn(3)))
 	}
+	// index.DelNode of a node that has descendants (download path, side branch)
+	cs = append(cs, scDelNodeDesc(r, "delnode-heavy", true, false), scDelNodeDesc(r, "delnode-light", false, false),
+		scDelNodeDesc(r, "delnode-heavy-restart", true, true), scDelNodeDesc(r, "delnode-light-restart", false, true))
 	for _, k := range []int{mReorder, mAlterSig, mBlockSig} {
 		cs = append(cs, scDownloadStale(r, "dlstale-"+mutName[k], k))
 	}
